@@ -799,7 +799,7 @@ impl ContinuityStore {
         }
 
         let continuity_id = Uuid::new_v4().to_string();
-        self.create_continuity(workspace, Some(continuity_id), None, true)
+        self.create_continuity(workspace, Some(continuity_id), None, true, None)
     }
 
     pub fn branch(
@@ -878,31 +878,22 @@ impl ContinuityStore {
         };
 
         let workspace = workspace_key(&self.workspace_root);
-        let thread_id = self.create_continuity(workspace, None, title, false)?;
-
-        let event = Event {
-            id: Uuid::new_v4().to_string(),
-            session_id: thread_id.clone(),
-            timestamp_ms: now_ms(),
-            seq: 1,
-            kind: EventKind::ContinuityBranched {
-                parent_thread_id: parent_thread_id.to_string(),
-                parent_seq,
-                parent_message_id: parent_message_id.clone(),
-                actor_id,
-                origin,
-            },
-        };
-        self.event_log
-            .append(&event)
-            .map_err(|err| format!("append continuity_branched: {err}"))?;
-        self.stream_cache.append_best_effort(&event);
-        let _ = self.sender.send(event.clone());
-
-        self.next_seq
-            .lock()
-            .expect("continuity seq mutex")
-            .insert(thread_id.clone(), 2);
+        let thread_id = self.create_continuity(
+            workspace,
+            None,
+            title,
+            false,
+            Some((
+                EventKind::ContinuityBranched {
+                    parent_thread_id: parent_thread_id.to_string(),
+                    parent_seq,
+                    parent_message_id: parent_message_id.clone(),
+                    actor_id,
+                    origin,
+                },
+                "continuity_branched",
+            )),
+        )?;
 
         Ok((thread_id, parent_seq, parent_message_id))
     }
@@ -987,9 +978,6 @@ impl ContinuityStore {
             (head_seq, last_message)
         };
 
-        let workspace = workspace_key(&self.workspace_root);
-        let thread_id = self.create_continuity(workspace, None, title, false)?;
-
         if summary_artifact_id.is_none() {
             if let Some(markdown) = summary_markdown.as_ref() {
                 let bundle = HandoffContextBundleV1::new_source_cut(
@@ -1005,31 +993,25 @@ impl ContinuityStore {
             }
         }
 
-        let event = Event {
-            id: Uuid::new_v4().to_string(),
-            session_id: thread_id.clone(),
-            timestamp_ms: now_ms(),
-            seq: 1,
-            kind: EventKind::ContinuityHandoffCreated {
-                from_thread_id: from_thread_id.to_string(),
-                from_seq,
-                from_message_id: from_message_id.clone(),
-                summary_artifact_id,
-                summary_markdown,
-                actor_id,
-                origin,
-            },
-        };
-        self.event_log
-            .append(&event)
-            .map_err(|err| format!("append continuity_handoff_created: {err}"))?;
-        self.stream_cache.append_best_effort(&event);
-        let _ = self.sender.send(event.clone());
-
-        self.next_seq
-            .lock()
-            .expect("continuity seq mutex")
-            .insert(thread_id.clone(), 2);
+        let workspace = workspace_key(&self.workspace_root);
+        let thread_id = self.create_continuity(
+            workspace,
+            None,
+            title,
+            false,
+            Some((
+                EventKind::ContinuityHandoffCreated {
+                    from_thread_id: from_thread_id.to_string(),
+                    from_seq,
+                    from_message_id: from_message_id.clone(),
+                    summary_artifact_id,
+                    summary_markdown,
+                    actor_id,
+                    origin,
+                },
+                "continuity_handoff_created",
+            )),
+        )?;
 
         Ok((thread_id, from_seq, from_message_id))
     }
@@ -3493,8 +3475,12 @@ impl ContinuityStore {
         continuity_id: Option<String>,
         title: Option<String>,
         set_as_default: bool,
+        lineage: Option<(EventKind, &'static str)>,
     ) -> Result<String, String> {
         let continuity_id = continuity_id.unwrap_or_else(|| Uuid::new_v4().to_string());
+        // Hold the seq mutex from before the new thread becomes visible (log, broadcast, index)
+        // until its lineage frame is written, so a concurrent append cannot claim seq 1 first.
+        let mut next_seq = self.next_seq.lock().expect("continuity seq mutex");
         let timestamp_ms = now_ms();
         let created = Event {
             id: Uuid::new_v4().to_string(),
@@ -3511,6 +3497,7 @@ impl ContinuityStore {
             .map_err(|err| format!("append continuity_created: {err}"))?;
         self.stream_cache.append_best_effort(&created);
         let _ = self.sender.send(created.clone());
+        next_seq.insert(continuity_id.clone(), 1);
 
         {
             let mut index = self.index.lock().expect("continuity index mutex");
@@ -3529,10 +3516,21 @@ impl ContinuityStore {
                 .map_err(|err| format!("save continuity index: {err}"))?;
         }
 
-        self.next_seq
-            .lock()
-            .expect("continuity seq mutex")
-            .insert(continuity_id.clone(), 1);
+        if let Some((kind, name)) = lineage {
+            let event = Event {
+                id: Uuid::new_v4().to_string(),
+                session_id: continuity_id.clone(),
+                timestamp_ms: now_ms(),
+                seq: 1,
+                kind,
+            };
+            self.event_log
+                .append(&event)
+                .map_err(|err| format!("append {name}: {err}"))?;
+            self.stream_cache.append_best_effort(&event);
+            let _ = self.sender.send(event.clone());
+            next_seq.insert(continuity_id.clone(), 2);
+        }
 
         Ok(continuity_id)
     }
